@@ -469,7 +469,7 @@ Plan generate_plan(const std::string& prop, unsigned long long vseed, unsigned l
             Op o; int k = r.range(0, 11);
             o.a = r.range(0, 7); o.b = r.range(0, 7);
             auto sz = [&]() -> unsigned long long { return r.chance(120) ? 0ull : r.chance(700) ? (unsigned long long)r.range(0, 200) : r.pick(sizes); };
-            if (k <= 2) { o.kind = OP_A_MALLOC; o.n1 = sz(); }
+            if (k <= 2) { o.kind = OP_A_MALLOC; o.n1 = sz(); if (r.chance(6)) { o.n1 = r.pick(std::vector<unsigned long long>{(1ull << 32) + 4096, (1ull << 32) + 17, (1ull << 32), 5ull << 30}); o.opt = 1; } }
             else if (k <= 4) { o.kind = OP_A_CALLOC; o.n1 = sz(); o.n2 = sz(); if (r.chance(100)) { o.n1 = 1ull << 33; o.n2 = 1ull << 31; } }
             else if (k <= 7) { o.kind = OP_A_REALLOC; o.n1 = sz(); if (r.chance(150)) o.a = -1; }
             else if (k <= 9) { o.kind = OP_A_REALLOCARRAY; o.n1 = sz(); o.n2 = sz(); if (r.chance(150)) o.a = -1; if (r.chance(100)) { o.n1 = (1ull << 32) + 3; o.n2 = 1ull << 32; } }
